@@ -11,7 +11,7 @@
             event  = (0) start | (1 late effect (key ...)) handler call | (2 late key) dropped
                    | (3 (key ...) (item ...)) thrown away by reset()
             result = (0 text) | (1) EOFError | (2) KeyboardInterrupt
-            flags  = (out_of_fuel unmodelled_handler) *)
+            flags  = (out_of_fuel_or_nested_feed unmodelled_handler) *)
 From Coq Require Import ZArith List Bool.
 From PTK Require Import Lib.Sx Lib.Py Model.C03_Vt100Parser Model.C17_Typeahead Model.C17_Emacs.
 Import ListNotations.
@@ -51,7 +51,7 @@ Definition snapshot (nlog : nat) (s : esys) : sx :=
       sx_list sx_res (results s);
       sx_str (prefix (par s));
       sx_list sx_ev (skipn nlog (rev (rlog c)));
-      L [sx_bool (oof c || C03_Vt100Parser.oof (par s)); sx_bool (unmod e)] ].
+      L [sx_bool (oof c || C03_Vt100Parser.oof (par s) || deep c); sx_bool (unmod e)] ].
 
 Definition dec_label (s : sx) : option label :=
   match s with
